@@ -16,6 +16,7 @@ import (
 	"os/exec"
 	"path/filepath"
 	"sort"
+	"strconv"
 	"strings"
 	"time"
 )
@@ -143,12 +144,10 @@ type replayResult struct {
 	Alloc    int64
 }
 
-var replayNoStub = map[string]bool{}
+var replayNoStub = map[string]string{}
 
 func (r *replayer) run(dir, harness string, v *Violation, file string) (*replayResult, error) {
-	if harnessNoStub(r.hfs, harness) {
-		replayNoStub[harness] = true
-	}
+	replayNoStub[harness] = harnessNoStub(r.hfs, harness)
 	bin, err := r.binary(dir)
 	if err != nil {
 		return nil, err
@@ -163,15 +162,15 @@ func (r *replayer) run(dir, harness string, v *Violation, file string) (*replayR
 }
 
 // harnessNoStub: the harness carries the `nostub` directive
-func harnessNoStub(hfs []*HarnessFile, name string) bool {
+func harnessNoStub(hfs []*HarnessFile, name string) string {
 	for _, h := range hfs {
 		for _, f := range h.Funcs {
 			if f.Name == name {
-				return f.Dirs["nostub"] != ""
+				return f.Dirs["nostub"]
 			}
 		}
 	}
-	return false
+	return ""
 }
 
 func runReplayBinary(bin, cwd, harness, file, tier string) (*replayResult, error) {
@@ -179,8 +178,8 @@ func runReplayBinary(bin, cwd, harness, file, tier string) (*replayResult, error
 	defer cancel()
 	cmd := exec.CommandContext(ctx, bin, "-test.run", "^TestZZReplay$", "-test.v", "-test.timeout", "30s")
 	cmd.Dir = cwd
-	if replayNoStub[harness] {
-		cmd.Env = append(cmd.Env, "ZZVF_NOSTUB=1")
+	if v := replayNoStub[harness]; v != "" {
+		cmd.Env = append(cmd.Env, "ZZVF_NOSTUB="+v)
 	}
 	cmd.Env = append(append(os.Environ(), cmd.Env...), "TMPDIR="+filepath.Dir(bin), "ZZVF_REPLAY="+file, "ZZVF_HARNESS="+harness, "ZZVF_TIER="+tier)
 	var buf bytes.Buffer
@@ -621,9 +620,7 @@ func cmdReplay(args []string) int {
 		return 2
 	}
 	abs, _ := filepath.Abs(args[0])
-	if harnessNoStub(hfs, rf.Harness) {
-		replayNoStub[rf.Harness] = true
-	}
+	replayNoStub[rf.Harness] = harnessNoStub(hfs, rf.Harness)
 	rr, _ := runReplayBinary(bin, filepath.Join(repoDir, rf.Dir), rf.Harness, abs, rf.Tier)
 	fmt.Print(rr.Out)
 	ok, why := confirmed(&Violation{Label: rf.Label, Kind: rf.Kind}, rr)
@@ -699,9 +696,9 @@ func (r *replayer) stubOverlay(ov map[string]string) error {
 				ret := "return "
 				if fd.Type.Results == nil || len(fd.Type.Results.List) == 0 {
 					ret = "return; "
-					byFile[lo.Filename] = append(byFile[lo.Filename], edit{lo.Offset, lo.Offset + 1, "{ if zzvfstub.StubActive() { zzvfstub." + target + "(" + callArgs + "); return }; "})
+					byFile[lo.Filename] = append(byFile[lo.Filename], edit{lo.Offset, lo.Offset + 1, "{ if zzvfstub.StubActive(" + strconv.Quote(st[0]) + ") { zzvfstub." + target + "(" + callArgs + "); return }; "})
 				} else {
-					byFile[lo.Filename] = append(byFile[lo.Filename], edit{lo.Offset, lo.Offset + 1, "{ if zzvfstub.StubActive() { " + ret + "zzvfstub." + target + "(" + callArgs + ") }; "})
+					byFile[lo.Filename] = append(byFile[lo.Filename], edit{lo.Offset, lo.Offset + 1, "{ if zzvfstub.StubActive(" + strconv.Quote(st[0]) + ") { " + ret + "zzvfstub." + target + "(" + callArgs + ") }; "})
 				}
 			}
 		}
